@@ -389,18 +389,7 @@ pub unsafe extern "C" fn rename(old: *const c_char, new: *const c_char) -> c_int
     }
     let p = CStr::from_ptr(old).to_bytes();
     let q = CStr::from_ptr(new).to_bytes();
-    let mut done = None;
-    let r = fsim::hook_forbidden("rename (source)", -1, Some(p), || {
-        let v = real();
-        done = Some(v);
-        v
-    });
-    if done.is_some() {
-        // also flag the destination if it is a store path
-        fsim::hook_forbidden("rename (destination)", -1, Some(q), || r);
-        return ret(r) as c_int;
-    }
-    ret(fsim::hook_forbidden("rename (destination)", -1, Some(q), real)) as c_int
+    ret(fsim::hook_rename(p, q, real)) as c_int
 }
 
 #[no_mangle]
